@@ -86,6 +86,18 @@ def gen(tier, rng):
                         add(api="deflate", inp=data, level=level, wrap=[0, 3][(w + level) % 2], hist_bits=w, lbuf=3, dictmode=mode, dct=dct, mem=level % 3, prefill=late,
                             calls=[[[len(data), 300][(level + mode) % 2], 1 << 16, [0, 1, 2][(w + level) % 3], 1]] * (len(data) // 300 + 2),
                             meta={"family": "dict-small-window" + ("-chosen-after-dictionary" if late else ""), "cpu": CPUS[(w + level + mode) % len(CPUS)], "dl": dl, "w": w})
+    # (b3) dictionaries longer than the window: only the last 32 KiB count, and all of it counts - the data begins with the OLDEST bytes of that last
+    #      32 KiB (matches at distances up to 32767 right at the start of the stream), so compressor and decompressor must keep exactly the same tail
+    for dl in (40000, 32769) if tier == "quick" else (40000, 32769, 33000, 65536, 70001):
+        dct = igz.corpus(rng, "random", dl)
+        for back in (32768, 32767, 32600):
+            src = dl - back
+            data = dct[src:src + 300] + igz.corpus(rng, "text", 200) + dct[src + 300:src + 500] + dct[-64:]
+            for level in range(4):
+                if tier == "quick" and (level + back + dl) % 2: continue
+                for mode in (1, 2):
+                    add(api="deflate", inp=data, level=level, wrap=[0, 3][(level + mode) % 2], lbuf=3, dictmode=mode, dct=dct, mem=level % 3,
+                        calls=[[len(data), 1 << 16, 0, 1]], meta={"family": "dict-longer-than-window-far-edge", "cpu": CPUS[(level + mode) % len(CPUS)], "dl": dl})
     # (c) dictionary calls in a wrong state must be refused; the stream must come out as if they had not been made
     for level in range(4):
         data = igz.corpus(rng, "text", 3000); dct = igz.corpus(rng, "text", 500)
@@ -149,7 +161,7 @@ def run(tier, replay=None):
     # inflate side primed with the same dictionary (direction G): the produced streams go through isal_inflate
     isc = []
     for s in scns:
-        if s["meta"]["family"] in ("dict-direct", "dict-preprocessed") and by[s["scn"]]["end"].get("why") == "end":
+        if s["meta"]["family"] in ("dict-direct", "dict-preprocessed", "dict-longer-than-window-far-edge") and by[s["scn"]]["end"].get("why") == "end":
             st = outbytes(s["scn"])
             mode = {0: 0, 1: 1, 3: 3}[s["wrap"]]
             for api, ta, to in (("inflate", 1 << 16, 1 << 16), ("inflate", 7, 11)):
